@@ -1,0 +1,128 @@
+//go:build verif
+
+package badger
+
+import (
+	"fmt"
+	"time"
+
+	"github.com/dgraph-io/badger/v4/table"
+	"github.com/dgraph-io/badger/v4/y"
+)
+
+// Thin exported wrappers around compactStatus for the /verif harness (engine "cstatus").
+// Nothing here is compiled without the verif build tag.
+
+// VerifCStatus owns a compactStatus, one levelHandler per level (compactDef compares the
+// handlers by pointer) and in-memory tables by id (compactDef carries *table.Table).
+type VerifCStatus struct {
+	lc     *levelsController
+	cs     *compactStatus
+	lhs    []*levelHandler
+	tables map[uint64]*table.Table
+}
+
+// VerifRange is a keyRange with exported fields.
+type VerifRange struct {
+	Left, Right []byte
+	Inf         bool
+}
+
+func (r VerifRange) kr() keyRange { return keyRange{left: r.Left, right: r.Right, inf: r.Inf} }
+
+func VerifNewCStatus(levels int) *VerifCStatus {
+	v := &VerifCStatus{lc: &levelsController{}, tables: map[uint64]*table.Table{}}
+	v.cs = &v.lc.cstatus
+	v.cs.tables = make(map[uint64]struct{})
+	for i := 0; i < levels; i++ {
+		v.cs.levels = append(v.cs.levels, new(levelCompactStatus))
+		v.lhs = append(v.lhs, &levelHandler{level: i})
+	}
+	v.lc.levels = v.lhs
+	return v
+}
+
+func (v *VerifCStatus) table(id uint64) *table.Table {
+	if t, ok := v.tables[id]; ok {
+		return t
+	}
+	opts := table.Options{BlockSize: 4 << 10, BloomFalsePositive: 0.01, TableSize: 1 << 20}
+	b := table.NewTableBuilder(opts)
+	defer b.Close()
+	b.Add(y.KeyWithTs([]byte(fmt.Sprintf("k%08d", id)), 1), y.ValueStruct{Value: []byte("v")}, 0)
+	t, err := table.OpenInMemoryTable(b.Finish(), id, &opts)
+	y.Check(err)
+	t.CreatedAt = time.Now().Add(-time.Hour)
+	v.tables[id] = t
+	return t
+}
+
+func (v *VerifCStatus) def(tl, nl int, this, next VerifRange, thisSize int64, ids []uint64) compactDef {
+	cd := compactDef{thisLevel: v.lhs[tl], nextLevel: v.lhs[nl], thisRange: this.kr(), nextRange: next.kr(),
+		thisSize: thisSize}
+	for _, id := range ids {
+		cd.top = append(cd.top, v.table(id))
+	}
+	return cd
+}
+
+// Levels returns len(cs.levels).
+func (v *VerifCStatus) Levels() int { return len(v.cs.levels) }
+
+// CompareAndAdd calls compactStatus.compareAndAdd.
+func (v *VerifCStatus) CompareAndAdd(tl, nl int, this, next VerifRange, thisSize int64, ids []uint64) bool {
+	return v.cs.compareAndAdd(thisAndNextLevelRLocked{}, v.def(tl, nl, this, next, thisSize, ids))
+}
+
+// Delete calls compactStatus.delete (log.Fatal when a range or a table id is missing: the
+// caller checks with Ranges / HasTable first).
+func (v *VerifCStatus) Delete(tl, nl int, this, next VerifRange, thisSize int64, ids []uint64) {
+	v.cs.delete(v.def(tl, nl, this, next, thisSize, ids))
+}
+
+// OverlapsWith calls compactStatus.overlapsWith.
+func (v *VerifCStatus) OverlapsWith(level int, r VerifRange) bool {
+	return v.cs.overlapsWith(level, r.kr())
+}
+
+// L0L0 runs levelsController.fillTablesL0ToL0 (compactor 0) over the candidate tables as level 0
+// and returns whether it picked and the ids of cd.top.
+func (v *VerifCStatus) L0L0(cands []uint64) (bool, []uint64) {
+	lh0 := v.lhs[0]
+	lh0.tables = nil
+	for _, id := range cands {
+		lh0.tables = append(lh0.tables, v.table(id))
+	}
+	defer func() { lh0.tables = nil }()
+	cd := compactDef{compactorId: 0, thisLevel: lh0, t: targets{fileSz: []int64{1 << 30}}}
+	if !v.lc.fillTablesL0ToL0(&cd) {
+		return false, nil
+	}
+	var out []uint64
+	for _, t := range cd.top {
+		out = append(out, t.ID())
+	}
+	return true, out
+}
+
+// Ranges returns the stored ranges of a level, DelSize its delSize, Tables the table-id set.
+func (v *VerifCStatus) Ranges(level int) []VerifRange {
+	var out []VerifRange
+	for _, r := range v.cs.levels[level].ranges {
+		out = append(out, VerifRange{r.left, r.right, r.inf})
+	}
+	return out
+}
+func (v *VerifCStatus) DelSize(level int) int64 { return v.cs.delSize(level) }
+func (v *VerifCStatus) Tables() []uint64 {
+	var out []uint64
+	for id := range v.cs.tables {
+		out = append(out, id)
+	}
+	return out
+}
+
+// VerifRangeOps evaluates keyRange.overlapsWith / equals / isEmpty.
+func VerifRangeOps(r, q VerifRange) (overlaps, equals, empty bool) {
+	return r.kr().overlapsWith(q.kr()), r.kr().equals(q.kr()), r.kr().isEmpty()
+}
